@@ -21,6 +21,7 @@
    Proofs/EditReadOnly.v), a non-vacuity example, and Print Assumptions. *)
 From Coq Require Import ZArith List Bool Permutation.
 From FT Require Import Base.Dict Model.Edit Model.EditExec Proofs.EditReadOnly.
+From FT Require Proofs.CoreTieBundle.
 Import ListNotations.
 Open Scope Z_scope.
 
@@ -104,6 +105,16 @@ Definition ex_state : state :=
             (3, [(KTime, VZ 2); (KPos, VTok 3); (KTrack, VZ 1); (KLin, VZ 1)])]
            [(1, 2, []); (2, 3, [])] None ex_feats [(1, [3; 1; 2])] [(1, [1; 2; 3])] 1 1 4.
 
+(* ---- one level further down: the queries (get_track_neighbors with its in-place sort, has_track_id_at_time,
+        next track / lineage id), the node-id counter, Tracks.undo / redo and the seven basic actions with their
+        inverses (__init__, _apply, the annotator notifications, the track-annotator bookkeeping and relabel
+        walk inlined) of the model equal the code translated on every run from data_model/solution_tracks.py,
+        data_model/tracks.py, annotators/_track_annotator.py and actions/*.py (Gen/Core_gen.v; translator
+        harness/translate_core.py, fail closed).  The statement is Proofs/CoreTieBundle.v: core_tie_statement.
+        Not translated (hand models): the regionprops / edge annotators' update, the bulk compute paths. ---- *)
+Theorem C16_core_is_generated : FT.Proofs.CoreTieBundle.core_tie_statement.
+Proof. exact FT.Proofs.CoreTieBundle.core_tie. Qed.
+
 Example C16_nonvacuous :
   let '(s1, r) := track_neighbors ex_state 1 1 in
   r = (Some 1, Some 3) /\
@@ -134,3 +145,4 @@ Print Assumptions C16_has_track_at_next_ids.
 Print Assumptions C16_run.
 Print Assumptions C16_new_ids_exception.
 Print Assumptions C16_queries_respect_ro.
+Print Assumptions C16_core_is_generated.
